@@ -109,6 +109,11 @@ func (r *Run) Sample(v any) {
 	}
 }
 
+// Stdout is the process's standard output as it was at start: some drivers redirect os.Stdout while a
+// command under test prints; the interface lines (VIOLATION, KNOWN-FINDING, PASS, ...) must never end
+// up in such a capture.
+var Stdout = os.Stdout
+
 func (r *Run) AddDrift(n int64) {
 	r.mu.Lock()
 	r.Drift += n
@@ -125,7 +130,7 @@ func (r *Run) Violation(findingKey string, what string, replay any) {
 		if f.Property == r.ID && f.Key == findingKey {
 			if !r.known[findingKey] {
 				r.known[findingKey] = true
-				fmt.Printf("KNOWN-FINDING: property=%s %s (%s)\n", r.ID, f.What, findingKey)
+				fmt.Fprintf(Stdout, "KNOWN-FINDING: property=%s %s (%s)\n", r.ID, f.What, findingKey)
 			}
 			return
 		}
@@ -143,8 +148,8 @@ func (r *Run) Violation(findingKey string, what string, replay any) {
 	}
 	r.violations = append(r.violations, p)
 	if len(r.violations) <= 20 {
-		fmt.Printf("VIOLATION property=%s replay=%s\n", r.ID, p)
-		fmt.Printf("  what: %s\n", what)
+		fmt.Fprintf(Stdout, "VIOLATION property=%s replay=%s\n", r.ID, p)
+		fmt.Fprintf(Stdout, "  what: %s\n", what)
 	}
 }
 
@@ -168,7 +173,7 @@ func (r *Run) Finish() int {
 	r.mu.Lock()
 	defer r.mu.Unlock()
 	if r.infraErr != nil {
-		fmt.Printf("ERROR property=%s %v\n", r.ID, r.infraErr)
+		fmt.Fprintf(Stdout, "ERROR property=%s %v\n", r.ID, r.infraErr)
 		return 2
 	}
 	cov := map[string]any{
@@ -221,14 +226,30 @@ func (r *Run) Finish() int {
 	}
 	os.MkdirAll(evdir, 0o755)
 	if err := os.WriteFile(filepath.Join(evdir, r.ID+".json"), append(b, '\n'), 0o644); err != nil {
-		fmt.Printf("ERROR property=%s cannot write evidence: %v\n", r.ID, err)
+		fmt.Fprintf(Stdout, "ERROR property=%s cannot write evidence: %v\n", r.ID, err)
 		return 2
 	}
 	if len(r.violations) > 0 {
-		fmt.Printf("FAIL property=%s violations=%d\n", r.ID, len(r.violations))
+		fmt.Fprintf(Stdout, "FAIL property=%s violations=%d\n", r.ID, len(r.violations))
 		return 1
 	}
-	fmt.Printf("PASS property=%s tier=%s seed=%d states=%d transitions=%d impl_cases=%d distinct=%d drift=%d wall=%.1fs\n",
+	fmt.Fprintf(Stdout, "PASS property=%s tier=%s seed=%d states=%d transitions=%d impl_cases=%d distinct=%d drift=%d wall=%.1fs\n",
 		r.ID, r.Tier, r.Seed, r.States, r.Transitions, r.Traces, len(r.Distinct), r.Drift, time.Since(r.start).Seconds())
 	return 0
+}
+
+// Pick selects a pseudo-random 1/stride of the indices (seeded). Unlike "every stride-th index" it
+// cannot alias with the period of an enumeration order (a dimension of the same size as the stride
+// would otherwise always contribute the same value).
+func Pick(i int, seed int64, stride int) bool {
+	if stride <= 1 {
+		return true
+	}
+	z := uint64(i)*0x9e3779b97f4a7c15 + uint64(seed)*0xbf58476d1ce4e5b9
+	z ^= z >> 30
+	z *= 0xbf58476d1ce4e5b9
+	z ^= z >> 27
+	z *= 0x94d049bb133111eb
+	z ^= z >> 31
+	return z%uint64(stride) == 0
 }
